@@ -385,6 +385,10 @@ func (c *TermCtx) Eq(a, b *Term) *Term {
 		}
 	}
 	if a.S.K == SBV {
+		// injective integer encoding used by the CBOR model
+		if a.Op == OApply && b.Op == OApply && a.Name == "BigEnc" && b.Name == "BigEnc" {
+			return c.Eq(a.Args[0], b.Args[0])
+		}
 		// injective hash model: H(x) = H(y) <=> x = y; digests of different-length inputs differ
 		if isHashApp(a) && isHashApp(b) {
 			fa, la := hashFnLen(a.Name)
